@@ -940,11 +940,14 @@ theorem unifier_half_open_race_fixed_gen (m : Nat) (sched : List Nat) :
     (uRace .fixed genUCfg.halfOpenRequests (uRaceInit m) sched).1.admitted ≤ genUCfg.halfOpenRequests :=
   unifier_half_open_race_fixed _ m sched
 
-/-! ## Non-vacuity -/
+/-! ## Non-vacuity (written with the regenerated values, so that a retune does not break them) -/
 
-example : (healthM .pinned genHCfg).phase ((healthM .pinned genHCfg).run (HealthCB.init 0) (List.replicate 3 .fail)) = .opened := by decide
-example : (engineM genECfg).phase ((engineM genECfg).run (EngineCB.init 0) (List.replicate 5 .fail ++ [.tick 31000000000, .ask])) = .halfOpen := by decide
-example : ((unifierM .pinned genUCfg).run (UnifierCB.init 0) (List.replicate 5 .fail ++ [.tick 61000000000, .ask, .ask, .ask, .ask])).halfOpen = 4 := by decide
-example : (clientRun .pinned genUCfg (UnifierCB.init 0) (List.replicate 5 (.call false))).state = .opened := by decide
+example : (healthM .pinned genHCfg).phase ((healthM .pinned genHCfg).run (HealthCB.init 0) (List.replicate genHCfg.threshold .fail)) = .opened := by decide
+example : (engineM genECfg).phase ((engineM genECfg).run (EngineCB.init 0)
+    (List.replicate genECfg.threshold .fail ++ [.tick (genECfg.timeout.toNat + 1000000000), .ask])) = .halfOpen := by decide
+example : ((unifierM .pinned genUCfg).run (UnifierCB.init 0)
+    (List.replicate genUCfg.failureThreshold .fail ++ [.tick (genUCfg.openDuration.toNat + 1000000000)] ++ List.replicate (genUCfg.halfOpenRequests + 1) .ask)).halfOpen
+      = genUCfg.halfOpenRequests + 1 := by decide
+example : (clientRun .pinned genUCfg (UnifierCB.init 0) (List.replicate genUCfg.failureThreshold (.call false))).state = .opened := by decide
 
 end Olla.Props.C08
